@@ -37,7 +37,21 @@ theorem tie_constants :
 theorem tie_calcSlot (ts base iv : Int) :
     calcSlotOf .day ts base iv = Generated.C04.dayCalcSlot ts base iv ∧
     calcSlotOf .month ts base iv = Generated.C04.monthCalcSlot ts base iv ∧
-    calcSlotOf .year ts base iv = Generated.C04.yearCalcSlot ts base iv := ⟨rfl, rfl, rfl⟩
+    calcSlotOf .year ts base iv = Generated.C04.yearCalcSlot ts base iv := by
+  refine ⟨rfl, ?_, rfl⟩
+  -- the month rule: `monthSlot` with the regenerated shape flag is the regenerated formula, for
+  -- either accepted shape (`% OneDay` kept / plain quotient)
+  first
+  | (show monthSlot false ts base iv = _
+     rfl)
+  | (show monthSlot true ts base iv = _
+     rfl)
+
+/-- the two accepted shapes of the month slot rule are the same function on the timestamps of a
+month-type family (offset inside one day; UTC) — so every theorem below holds for both. -/
+theorem month_slot_shapes_agree (ts base iv : Int) (h0 : 0 ≤ ts - base) (h1 : ts - base < oneDay) :
+    monthSlot true ts base iv = monthSlot false ts base iv :=
+  month_slot_variants_agree ts base iv h0 h1
 
 /-- `Interval.Type()` is the threshold ladder the model uses -/
 theorem tie_interval_type :
